@@ -147,6 +147,16 @@ class Box:
             os.chmod(pf, 0o644)
         elif kind == "dir":
             os.makedirs(pf, exist_ok=True)
+        beside = None
+        if kind == "beside":
+            # a RELATIVE name that does not exist in the working directory (a fresh empty one), while a valid policy that
+            # allows everything lies under that name next to the sandbox executable (and in $HOME, $TMPDIR and /)
+            rel = case["file"][1]
+            beside = [os.path.join(d0, rel) for d0 in (self.dir, os.path.join(self.dir, "home"), os.path.join(self.dir, "tmp"))]
+            for b in beside:
+                os.makedirs(os.path.dirname(b), exist_ok=True)
+                shutil.copy(self.decoy, b)
+                os.chmod(b, 0o644)
         marker = base + ".marker"
         probes = base + ".probes"
         with open(probes, "w") as f:
@@ -165,6 +175,12 @@ class Box:
             os.chmod(os.path.join(ddir, "seccomp.yml"), 0o644)
             cwd = ddir
             args = [self.sandbox] if case["cwd_default"] == "noflag" else [self.sandbox, "-policy", "seccomp.yml"]
+        if beside:
+            ddir = base + ".d"
+            os.makedirs(ddir, exist_ok=True)
+            os.chmod(ddir, 0o755)
+            cwd = ddir
+            args = [self.sandbox] if case["file"][1] == "seccomp.yml" and case.get("cwd_default") == "noflag" else [self.sandbox, "-policy", case["file"][1]]
         if case.get("nnp") is not None:
             args.append("-no-new-privs=%s" % ("true" if case["nnp"] else "false"))
         if case.get("target", "probe") == "probe":
@@ -183,6 +199,8 @@ class Box:
         if case.get("uid"):
             kw = dict(user=case["uid"], group=case["uid"], extra_groups=[])
         env = dict(os.environ, GODEBUG="asyncpreemptoff=1", GOTRACEBACK="none")
+        if beside:
+            env = dict(env, HOME=os.path.join(self.dir, "home"), TMPDIR=os.path.join(self.dir, "tmp"))
         if case.get("hostile"):
             # every variable the sources could ask for is set (lib/ambient.py); path-like ones name a policy that allows everything
             env = ambient.noise_env(env, value=lambda n: self.decoy)
@@ -205,6 +223,9 @@ class Box:
             os.remove(opf)
         if ddir:
             shutil.rmtree(ddir, ignore_errors=True)
+        for b in beside or []:
+            if os.path.exists(b):
+                os.remove(b)
         return dict(exit=code, marker=ml, out=out.splitlines(), stderr=err[-600:], argv=args)
 
 
@@ -243,6 +264,11 @@ def invalid_cases(rng, ng, table_names):
 
     out = []
     out.append(("missing file", dict(file=("missing",), target="probe", probes=[(39, 0, 0, 0, 0, 0, 0)])))
+    # a relative name that is missing in the working directory while a permissive policy of that name lies elsewhere
+    # (next to the executable, in $HOME, in $TMPDIR): still a missing file
+    for rel, how in (("seccomp.yml", "noflag"), ("seccomp.yml", "flag"), ("policy.yml", "flag"), ("./seccomp.yml", "flag")):
+        out.append(("missing relative file %s (%s) with a permissive namesake next to the executable" % (rel, "default name, no flag" if how == "noflag" else "-policy"),
+                    dict(file=("beside", rel), cwd_default=how, target="probe", probes=[(39, 0, 0, 0, 0, 0, 0)], hostile=rng.random() < 0.5)))
     out.append(("a directory as policy file", dict(file=("dir",), target="probe", probes=[(39, 0, 0, 0, 0, 0, 0)])))
     out.append(with_text("empty file", ""))
     out.append(with_text("file without a seccomp section", "other:\n  key: 1\n"))
